@@ -28,6 +28,13 @@ fn seqs(opts: usize, maxn: usize) -> Vec<Vec<usize>> {
     out
 }
 
+/// an id that is not in the model but agrees with one that is in all but its leading hex digit (a copy with a slip)
+fn near(id: Uuid) -> Uuid {
+    let mut b = *id.as_bytes();
+    b[0] ^= 0x80;
+    Uuid::from_bytes(b)
+}
+
 fn build(walls: &[usize], wins: &[usize], tbs: &[usize], nil_space: bool) -> Model {
     let mut m = model_with_meta(meta(zone("D3")));
     let wc = std_cons(&mut m);
@@ -42,19 +49,20 @@ fn build(walls: &[usize], wins: &[usize], tbs: &[usize], nil_space: bool) -> Mod
     for (k, o) in walls.iter().enumerate() {
         let sp = match o % 3 {
             0 => uid("S1"),
-            // (an absent id is, for the first element, an id that exists in another collection, and a fresh one for the second)
-            1 => if k == 0 { wc } else { uid("absent-space") },
+            // (an absent id is, for the first element, an id that exists in another collection; for the second, a present id
+            // with a slip in its leading digit; a fresh one from the third on)
+            1 => if k == 0 { wc } else if k == 1 { near(uid("S1")) } else { uid("absent-space") },
             _ => nil(),
         };
         let cons = match (o / 3) % 3 {
             0 => wc,
-            1 => if k == 0 { winc } else { uid("absent-cons") },
+            1 => if k == 0 { winc } else if k == 1 { near(wc) } else { uid("absent-cons") },
             _ => nil(),
         };
         let nt = match o / 9 {
             0 => None,
             1 => Some(uid("S2")),
-            2 => Some(if k == 0 { uid("w0") } else { uid("absent-next") }),
+            2 => Some(if k == 0 { uid("w0") } else if k == 1 { near(uid("S2")) } else { uid("absent-next") }),
             _ => Some(nil()),
         };
         // the boundary kind cycles with the option index and the position, so every (adjacent-space option, boundary kind)
@@ -73,12 +81,12 @@ fn build(walls: &[usize], wins: &[usize], tbs: &[usize], nil_space: bool) -> Mod
     for (k, o) in wins.iter().enumerate() {
         let wl = match o % 3 {
             0 => uid("w0"),
-            1 => if k == 0 { uid("S1") } else { uid("absent-wall") },
+            1 => if k == 0 { uid("S1") } else if k == 1 { near(uid("w0")) } else { uid("absent-wall") },
             _ => nil(),
         };
         let cons = match o / 3 {
             0 => winc,
-            _ => if k == 0 { wc } else { uid("absent-wincons") },
+            _ => if k == 0 { wc } else if k == 1 { near(winc) } else { uid("absent-wincons") },
         };
         let v = window(&format!("v{k}"), cons, wl, Some([1.0, 1.0]), 1.0, 1.0, 0.0);
         if (o + k) % 2 == 1 {
@@ -286,7 +294,7 @@ pub fn run(ctx: &Ctx) -> i32 {
     }
     ctx.finish(
         "model_checking",
-        &format!("full product (an 'absent' id is an id of another collection for the first element of a kind and a fresh id for the second): 0..2 walls x (space{{ok,absent,nil}} x cons{{ok,absent,nil}} x next_to{{None,ok,absent,nil}}, the boundary kind cycling through INTERIOR/EXTERIOR/ADIABATIC/GROUND so that every (next_to option, kind) pair occurs) x 0..{} windows x (wall{{ok,absent,nil}} x cons{{ok,absent}}) x 0..{} bridges x l{{-1,-0.0,0,2,-0.004,-1e-30}} x {{no space with nil id, one}}; user U / obstruction overrides on some of the walls and windows; oracle = number of broken links per element id (reference: set membership, l<0), compared with the number of warnings carrying that id; every 97th model also: JSON unchanged by check(), the histories check -> {{remove last space, remove first construction, add a space and move a wall into it, remove first wall}} -> check on a clone of the checked model, energy_indicators().warnings == check(); + 7 shipped models; non-trivial = at least one broken link expected", 2, ctx.tier.pick(1, 2)),
+        &format!("full product (an 'absent' id is an id of another collection for the first element of a kind, a present id with its leading hex digit changed for the second, a fresh id from the third on): 0..2 walls x (space{{ok,absent,nil}} x cons{{ok,absent,nil}} x next_to{{None,ok,absent,nil}}, the boundary kind cycling through INTERIOR/EXTERIOR/ADIABATIC/GROUND so that every (next_to option, kind) pair occurs) x 0..{} windows x (wall{{ok,absent,nil}} x cons{{ok,absent}}) x 0..{} bridges x l{{-1,-0.0,0,2,-0.004,-1e-30}} x {{no space with nil id, one}}; user U / obstruction overrides on some of the walls and windows; oracle = number of broken links per element id (reference: set membership, l<0), compared with the number of warnings carrying that id; every 97th model also: JSON unchanged by check(), the histories check -> {{remove last space, remove first construction, add a space and move a wall into it, remove first wall}} -> check on a clone of the checked model, energy_indicators().warnings == check(); + 7 shipped models; non-trivial = at least one broken link expected", 2, ctx.tier.pick(1, 2)),
         true,
         json!({"space_size": n}),
     )
